@@ -137,4 +137,13 @@ func Run(c *hx.Ctx) {
 			runRS(c, genRS(c, i), i)
 		}
 	}
+	// two real processes / one real process under load (see real2.go)
+	if (only == "" && c.Thorough()) || only == "gs2" {
+		for i := 0; i < 2; i++ {
+			runGS2(c, genGS2(c, i), i)
+		}
+	}
+	if (only == "" && c.Thorough()) || only == "up2" {
+		runUP2(c, genUP2(c, 0), 100)
+	}
 }
